@@ -1,8 +1,8 @@
 """C16 failures reach the emitter, keep node state intact, are never checkpointed (structural clauses)"""
-from ..rules import failure, holds, flow
+from ..rules import failure, holds, flow, folds
 from .common import declare
 
-RULES = ['RERAISE', 'STATE-AFTER-CALL', 'STATE-FROM-RESULT', 'NO-REL-ON-FAIL', 'SYNC-TRANSPORT', 'EMIT-CONVERT']
+RULES = ['NO-SWALLOWING-GATHER', 'ACC-CONTRACT', 'RERAISE', 'STATE-AFTER-CALL', 'STATE-FROM-RESULT', 'NO-REL-ON-FAIL', 'SYNC-TRANSPORT', 'EMIT-CONVERT']
 FLOORS = {'RERAISE': 5, 'STATE-AFTER-CALL': 8, 'STATE-FROM-RESULT': 1, 'NO-REL-ON-FAIL': 1, 'SYNC-TRANSPORT': 3, 'EMIT-CONVERT': 3}
 
 META = {
@@ -21,11 +21,16 @@ META = {
 
 def run(ctx, R):
     R.explanation = 'Exceptional edges of every function on the synchronous delivery chain.'
-    declare(R, {**failure.RULES, **holds.RULES, **flow.RULES}, RULES, FLOORS)
+    declare(R, {**failure.RULES, **holds.RULES, **flow.RULES, 'ACC-CONTRACT': folds.RULES['ACC-CONTRACT'] + ' (the state is committed before delivery, so a failure downstream does not roll the node back)'}, RULES, FLOORS)
     failure.check_reraise(ctx, R)
     failure.check_state_after_call(ctx, R)
+    failure.check_no_swallowing_gather(ctx, R)
+    folds.check_acc_contract(ctx, R)
     holds.check_emit(ctx, R)
     for k in [k for k in R.obs if k[0] not in RULES]:
         del R.obs[k]
     flow.check_sync_transport(ctx, R)
     flow.check_emit_convert(ctx, R)
+
+
+META['level'] += ' No gather(..., return_exceptions=True) on the delivery chain (NO-SWALLOWING-GATHER); accumulate commits its state before delivering (ACC-CONTRACT).'
